@@ -10,7 +10,10 @@ functions, there is no finite pure function to call):
   disables Pango's automatic hyphens;
 * `inline.py`: the collapsible `white-space` tuples of `skip_first_whitespace`,
   `remove_last_whitespace`, `text_align`; the `1 + 1e-9` fudge of `split_inline_box`; the preserved
-  line-break characters of `split_text_box`; the `('left', 'right')` test of `text_align`;
+  line-break characters of `split_text_box`; the `('left', 'right')` test of `text_align`; the wrapping
+  `white-space` tuple of `can_break_inside`; the `('pre', 'nowrap')` tuple of `split_inline_box` (no break
+  opportunity between two children);
+* `layout/preferred.py`: the `space_collapse` / `text_wrap` tuples of `inline_line_widths`;
 * `validation/properties.py`: accepted keywords of `white-space`, `overflow-wrap`, `word-break`,
   `text-align-all`, `text-align-last`.
 """
@@ -23,6 +26,7 @@ from .common import (
 
 LB = 'weasyprint/text/line_break.py'
 INL = 'weasyprint/layout/inline.py'
+PREF = 'weasyprint/layout/preferred.py'
 VAL = 'weasyprint/css/validation/properties.py'
 
 
@@ -140,7 +144,16 @@ def tables():
     if len(lr) != 1:
         raise ExtractionError('text_align: expected one `align in (...)`')
     out['physicalAlignValues'] = lr[0]
+    cbi = find_function(inl, 'can_break_inside')
+    out['canBreakInsideWrapValues'] = assigned_tuple(cbi, 'text_wrap', 'white_space')
     sib = find_function(inl, 'split_inline_box')
+    tuples = membership_tuples(sib, 'white_space')
+    if len(tuples) != 1:
+        raise ExtractionError(f'split_inline_box: expected one white_space membership test, got {len(tuples)}')
+    out['inlineNoBreakValues'] = tuples[0]
+    ilw = find_function(parse(PREF), 'inline_line_widths')
+    out['preferredCollapseValues'] = assigned_tuple(ilw, 'space_collapse', 'white_space')
+    out['preferredWrapValues'] = assigned_tuple(ilw, 'text_wrap', 'white_space')
     src = read_source(INL)
     fudges = [n for n in ast.walk(sib) if isinstance(n, ast.AugAssign) and isinstance(n.op, ast.Mult)
               and isinstance(n.target, ast.Name) and n.target.id == 'max_x']
@@ -166,7 +179,8 @@ def tables():
         out[lean] = validator_keywords(val, fname)
     out['sha'] = {
         'split_first_line': span_sha(LB, sfl), 'create_layout': span_sha(LB, cl),
-        'text_align': span_sha(INL, ta), 'split_text_box': span_sha(INL, stb)}
+        'text_align': span_sha(INL, ta), 'split_text_box': span_sha(INL, stb),
+        'can_break_inside': span_sha(INL, cbi), 'inline_line_widths': span_sha(PREF, ilw)}
     return out
 
 
@@ -192,6 +206,13 @@ def render(t):
         strs('skipFirstWsValues'),
         strs('removeLastWsValues'),
         strs('textAlignCollapseValues'),
+        '/-- `can_break_inside`: `text_wrap = box.style[\'white_space\'] in …` -/',
+        strs('canBreakInsideWrapValues'),
+        '/-- `split_inline_box`: no break opportunity between two children under these `white-space` values -/',
+        strs('inlineNoBreakValues'),
+        '/-- `preferred.inline_line_widths`: its own `space_collapse` / `text_wrap` tuples -/',
+        strs('preferredCollapseValues'),
+        strs('preferredWrapValues'),
         '/-- `text_align`: the physical keywords mapped through `direction` -/',
         strs('physicalAlignValues'),
         '/-- validators: accepted keywords -/',
